@@ -407,36 +407,68 @@ def _with_handle(biom, path):
 
 def stress(ctx):
     """Scale: a table with more than 2**20 cells and more than 65536 stored
-    values through both writer forms and one reader."""
+    values through both writer forms and one reader; and tables whose stored
+    values fill whole powers of two (a writer that works in blocks ends a
+    block exactly at the last value, at the last row with data, or on a
+    single long row)."""
     import scipy.sparse as sp
     r = ctx.rng('stress')
     rng = np.random.default_rng(r.randrange(2 ** 32))
-    n, m = 1100, 1000
-    M = sp.random(n, m, density=0.07, format='csr', random_state=rng,
-                  data_rvs=lambda k: rng.integers(1, 1000, size=k) / 8.0)
-    M.data[::97] = 1e-9
-    obs = ['o%d' % i for i in range(n)]
-    samp = ['s%d' % j for j in range(m)]
-    t = ctx.biom.Table(M, obs, samp)
-    D = M.toarray()
-    date = datetime.datetime(2021, 1, 1)
-    text = t.to_json('scale', creation_date=date)
-    buf = io.StringIO()
-    t.to_json('scale', direct_io=buf, creation_date=date)
-    d1 = jsonspec.loads_strict(text)
-    d2 = jsonspec.loads_strict(buf.getvalue())
-    desc = {'stress': 'json %dx%d, %d stored' % (n, m, M.nnz)}
-    if d1 != d2:
-        raise Violation('C02/writer-forms-differ', 'scale case; %r' % desc)
-    dec = jsonspec.decode(d1)
-    if dec['obs_ids'] != obs or dec['samp_ids'] != samp or \
-            not snap.bits_equal(dec['D'], D):
-        bad = np.argwhere(dec['D'] != D)
-        raise Violation('C02/document-content', 'scale case: %d cells differ, '
-                        'first %r; %r' % (len(bad), bad[:1].tolist(), desc))
-    t2 = ctx.biom.parse_table(io.StringIO(text))
-    if not snap.bits_equal(t2.matrix_data.toarray(), D):
-        raise Violation('C02/readback-differs/parse_table_handle',
-                        'scale case; %r' % desc)
-    ctx.count('scale_cases')
-    ctx.case(desc, True)
+
+    def dense(n, m):
+        return sp.csr_matrix(rng.integers(1, 1000, size=(n, m)) / 8.0)
+
+    def sparse_big():
+        M = sp.random(1100, 1000, density=0.07, format='csr',
+                      random_state=rng,
+                      data_rvs=lambda k: rng.integers(1, 1000, size=k) / 8.0)
+        M.data[::97] = 1e-9
+        return M
+
+    def trailing_empty():
+        # the block is full at the last row that holds data; empty rows follow
+        M = sp.lil_matrix((260, 256))
+        M[:256, :] = rng.integers(1, 1000, size=(256, 256)) / 8.0
+        return M.tocsr()
+    makers = [('sparse 1100x1000', sparse_big),
+              ('dense 256x256', lambda: dense(256, 256)),
+              ('one row of 65536', lambda: dense(1, 65536)),
+              ('one row of 70001', lambda: dense(1, 70001)),
+              ('one column of 65536', lambda: dense(65536, 1)),
+              ('dense 2x32768', lambda: dense(2, 32768)),
+              ('dense 512x256', lambda: dense(512, 256)),
+              ('256x256 then empty rows', trailing_empty),
+              ('dense 255x257', lambda: dense(255, 257))]
+    for name, mk in makers:
+        M = mk()
+        n, m = M.shape
+        obs = ['o%d' % i for i in range(n)]
+        samp = ['s%d' % j for j in range(m)]
+        t = ctx.biom.Table(M, obs, samp)
+        D = M.toarray()
+        date = datetime.datetime(2021, 1, 1)
+        desc = {'stress': 'json %s, %d stored' % (name, M.nnz)}
+        text = t.to_json('scale', creation_date=date)
+        buf = io.StringIO()
+        t.to_json('scale', direct_io=buf, creation_date=date)
+        try:
+            d1 = jsonspec.loads_strict(text)
+            d2 = jsonspec.loads_strict(buf.getvalue())
+        except ValueError as e:
+            raise Violation('C02/not-json', 'scale case: %s; %r' % (e, desc))
+        if d1 != d2:
+            raise Violation('C02/writer-forms-differ', 'scale case; %r' %
+                            desc)
+        dec = jsonspec.decode(d1)
+        if dec['obs_ids'] != obs or dec['samp_ids'] != samp or \
+                not snap.bits_equal(dec['D'], D):
+            bad = np.argwhere(dec['D'] != D)
+            raise Violation('C02/document-content', 'scale case: %d cells '
+                            'differ, first %r; %r' % (len(bad),
+                                                      bad[:1].tolist(), desc))
+        t2 = ctx.biom.parse_table(io.StringIO(text))
+        if not snap.bits_equal(t2.matrix_data.toarray(), D):
+            raise Violation('C02/readback-differs/parse_table_handle',
+                            'scale case; %r' % desc)
+        ctx.count('scale_cases')
+        ctx.case(desc, True)
